@@ -368,6 +368,13 @@ def pattern_bindings(pat, expr, out):
         pattern_bindings(pat['pats'][0], expr, out)
     elif k in ('p_ref', 'p_deref') and 'pat' in pat:
         pattern_bindings(pat['pat'], expr, out)
+    elif k == 'p_struct':
+        # `let S { a, b: x } = s;` binds a to s.a and x to s.b; a struct literal on the other side is matched field by field
+        e = peel(expr)
+        lit = {f['name']: f['e'] for f in e.get('fields', [])} if e.get('k') == 'struct' else None
+        for f in pat.get('fields', []):
+            sub = lit[f['name']] if lit is not None and f['name'] in lit else {'k': 'field', 'name': f['name'], 'base': expr, 'l': pat.get('l')}
+            pattern_bindings(f['pat'], sub, out)
 
 
 def local_origins(body):
